@@ -222,6 +222,13 @@ func (vm *VirtualMachine) runCodeInternal(ctx context.Context, codeToRun *compil
 	startIP := 0
 	if !resetState {
 		startIP = vm.ip
+		// Continuing with code that was extended since the last run (REPL
+		// usage): the result of the previous piece is no operand of this one.
+		// Without this, every piece leaves its value on the stack for good.
+		for i := vm.sp; i >= 0; i-- {
+			vm.stack[i] = nil
+		}
+		vm.sp = -1
 	}
 	vm.activateCode(0, startIP, codeObj)
 
